@@ -4,6 +4,7 @@ mod core;
 mod model;
 mod monitors;
 mod props;
+mod ser_model;
 mod values;
 
 use crate::core::{Cx, Tier};
